@@ -104,7 +104,8 @@ def parseRFC3339 (s : String) : Option Int := parseBytes s.toUTF8.toList
 /-- `time.UnixMilli(int64(f))`: the instant of a numeric epoch-millisecond operand. -/
 def ofMillis (q : Rat) : Int := goInt q * 1000000
 
-/-- `TypeConversions.ValueToTimestamp` / `parseDateTime` -/
+/-- `TypeConversions.ValueToTimestamp` / `parseDateTime`: both `switch value.Type()`, so a raw value
+(`RawType`), even one holding a string or a number, is never a timestamp. -/
 def valueToTimestamp : J → Option Int
   | .str s => parseRFC3339 s
   | .num q => some (ofMillis q)
